@@ -64,6 +64,9 @@ def make(ctx, var):
 
 def run(ctx) -> Report:
     rep = Report("C04")
+    # the memo-key clause first: it needs no interpretation, and what it finds is reported even if a later clause cannot follow the code
+    from ..memokey import check_memo_keys, memo_rule  # noqa: F401
+    check_memo_keys(ctx, rep, "C04-key", [MOD])
     check_tables(ctx, rep, "C04", ["VariableRuleset"])
     calc_instances(ctx, rep, "VariableRuleset", "C04", var_shapes=((), (2,), (2, 2)))
     rule = "C04-id"
@@ -223,7 +226,6 @@ def run(ctx) -> Report:
     from .c03_compose import compose_diff
 
     compose_diff(ctx, rep)
-    check_memo_keys(ctx, rep, "C04-key", [MOD])
     rep.require_min("C04-compose", 8)
     rep.require_min("C04-table", 130)
     rep.require_min("C04-calc", 150)
